@@ -2598,120 +2598,251 @@ def rule_registry(repo):
     return r
 
 
-def rule_symbols(repo):
-    """Distinct nets must get distinct VCD identifier codes, made of printable non-blank characters: the symbol generator
-    is a closed (input-free) generator function, so its first N outputs are constant-folded and compared."""
-    r = RuleResult('R-C16-symbols', "the VCD identifier generator never hands the same code to two nets (first 10000 codes constant-folded)")
-    m = repo.mod(VCD)
-    gens = [n for n in ast.walk(m.tree) if isinstance(n, ast.FunctionDef) and any(isinstance(x, ast.Yield) for x in walk_no_nested(n))
-            and 'symbol' in n.name]
-    if len(gens) != 1:
-        raise AnalysisError("anchor vanished: VCD symbol generator")
-    g = gens[0]
-    LIMIT = 10000
+class _GenYield(Exception):
+    def __init__(self, v):
+        self.v = v
 
-    class Stop(Exception):
-        pass
-    out = []
-    env = {}
 
-    def ev(e):
+class _GenReturn(Exception):
+    def __init__(self, v):
+        self.v = v
+
+
+class _FoldBudget(AnalysisError):
+    pass
+
+
+class _Fold:
+    """interpreter for a closed (input-free) symbol generator: integer / string arithmetic, divmod, chr/ord/len/range/str,
+    join, indexing and slicing, f-strings, if / while / for-range, local helper functions (recursion allowed).  Anything else
+    is outside the folding domain (AnalysisError); run-time errors of the generator itself surface as Python exceptions."""
+    def __init__(self, budget=200000):
+        self.budget = budget
+
+    def tick(self):
+        self.budget -= 1
+        if self.budget < 0:
+            raise _FoldBudget("symbol generator: folding budget exceeded (a digit loop may not terminate)")
+
+    def ev(self, e, env):
+        import operator as op
+        self.tick()
         if isinstance(e, ast.Constant):
             return e.value
         if isinstance(e, ast.Name):
-            if e.id in env:
-                return env[e.id]
+            for fr in env:
+                if e.id in fr:
+                    return fr[e.id]
             if e.id in ('True', 'False'):
                 return e.id == 'True'
             raise AnalysisError(f"symbol generator: unbound name {e.id}")
         if isinstance(e, ast.BinOp):
-            import operator as op
-            ops = {ast.Add: op.add, ast.Sub: op.sub, ast.Mult: op.mul, ast.FloorDiv: op.floordiv, ast.Mod: op.mod}
+            ops = {ast.Add: op.add, ast.Sub: op.sub, ast.Mult: op.mul, ast.FloorDiv: op.floordiv, ast.Mod: op.mod, ast.Pow: op.pow}
             if type(e.op) not in ops:
                 raise AnalysisError(f"symbol generator: operator {norm(e)}")
-            return ops[type(e.op)](ev(e.left), ev(e.right))
-        if isinstance(e, ast.Compare) and len(e.ops) == 1:
-            import operator as op
+            return ops[type(e.op)](self.ev(e.left, env), self.ev(e.right, env))
+        if isinstance(e, ast.UnaryOp) and isinstance(e.op, (ast.Not, ast.USub)):
+            v = self.ev(e.operand, env)
+            return (not v) if isinstance(e.op, ast.Not) else -v
+        if isinstance(e, ast.BoolOp):
+            v = None
+            for x in e.values:
+                v = self.ev(x, env)
+                if (isinstance(e.op, ast.And) and not v) or (isinstance(e.op, ast.Or) and v):
+                    return v
+            return v
+        if isinstance(e, ast.Compare):
             ops = {ast.Gt: op.gt, ast.GtE: op.ge, ast.Lt: op.lt, ast.LtE: op.le, ast.Eq: op.eq, ast.NotEq: op.ne}
-            return ops[type(e.ops[0])](ev(e.left), ev(e.comparators[0]))
+            left = self.ev(e.left, env)
+            for o, c in zip(e.ops, e.comparators):
+                if type(o) not in ops:
+                    raise AnalysisError(f"symbol generator: comparison {norm(e)}")
+                right = self.ev(c, env)
+                if not ops[type(o)](left, right):
+                    return False
+                left = right
+            return True
+        if isinstance(e, ast.IfExp):
+            return self.ev(e.body, env) if self.ev(e.test, env) else self.ev(e.orelse, env)
         if isinstance(e, ast.Subscript):
-            return ev(e.value)[ev(e.slice)]
-        if isinstance(e, ast.Tuple):
-            return tuple(ev(x) for x in e.elts)
-        if isinstance(e, ast.Call):
-            fn = norm(e.func)
-            if fn == 'divmod':
-                return divmod(ev(e.args[0]), ev(e.args[1]))
-            if fn == 'len':
-                return len(ev(e.args[0]))
-            if fn == 'chr':
-                return chr(ev(e.args[0]))
-            if fn == 'range':
-                return range(*[ev(a) for a in e.args])
-            if fn == 'str':
-                return str(ev(e.args[0]))
-            if isinstance(e.func, ast.Attribute) and e.func.attr == 'join':
-                return ev(e.func.value).join(ev(e.args[0]))
-        if isinstance(e, (ast.ListComp, ast.GeneratorExp)) and len(e.generators) == 1 and not e.generators[0].ifs:
-            res = []
-            for v in ev(e.generators[0].iter):
-                env[norm(e.generators[0].target)] = v
-                res.append(ev(e.elt))
-            return res
-        raise AnalysisError(f"symbol generator: expression outside the folding domain: {norm(e)}")
-    steps = [0]
-
-    def run(stmts):
-        for st in stmts:
-            steps[0] += 1
-            if steps[0] > 400000:
-                raise AnalysisError("symbol generator: folding budget exceeded (the digit loop may not terminate)")
-            if isinstance(st, ast.Assign) and len(st.targets) == 1:
-                t, v = st.targets[0], ev(st.value)
-                if isinstance(t, ast.Name):
-                    env[t.id] = v
-                elif isinstance(t, ast.Tuple):
-                    for a, b in zip(t.elts, v):
-                        env[a.id] = b
+            base = self.ev(e.value, env)
+            if isinstance(e.slice, ast.Slice):
+                f = lambda x: None if x is None else self.ev(x, env)
+                return base[f(e.slice.lower):f(e.slice.upper):f(e.slice.step)]
+            return base[self.ev(e.slice, env)]
+        if isinstance(e, (ast.Tuple, ast.List)):
+            vals = [self.ev(x, env) for x in e.elts]
+            return tuple(vals) if isinstance(e, ast.Tuple) else vals
+        if isinstance(e, ast.JoinedStr):
+            out = ''
+            for v in e.values:
+                if isinstance(v, ast.Constant):
+                    out += v.value
+                elif v.format_spec is None and v.conversion == -1:
+                    out += str(self.ev(v.value, env))
                 else:
-                    raise AnalysisError("symbol generator: assignment target")
-            elif isinstance(st, ast.AugAssign) and isinstance(st.target, ast.Name) and isinstance(st.op, ast.Add):
-                env[st.target.id] = env[st.target.id] + ev(st.value)
+                    raise AnalysisError(f"symbol generator: formatted hole {norm(e)}")
+            return out
+        if isinstance(e, (ast.ListComp, ast.GeneratorExp)) and len(e.generators) == 1:
+            g = e.generators[0]
+            res = []
+            for v in self.ev(g.iter, env):
+                fr = [{}] + env
+                self.bind(g.target, v, fr)
+                if all(self.ev(c, fr) for c in g.ifs):
+                    res.append(self.ev(e.elt, fr))
+            return res
+        if isinstance(e, ast.Call) and not e.keywords:
+            fn = norm(e.func)
+            args = [self.ev(a, env) for a in e.args]
+            simple = {'divmod': divmod, 'len': len, 'chr': chr, 'ord': ord, 'range': range, 'str': str, 'int': int, 'list': list,
+                      'reversed': lambda x: list(reversed(x)), 'min': min, 'max': max}
+            if fn in simple:
+                return simple[fn](*args)
+            if isinstance(e.func, ast.Attribute) and e.func.attr == 'join':
+                return self.ev(e.func.value, env).join(args[0])
+            if isinstance(e.func, ast.Name):
+                for fr in env:
+                    if e.func.id in fr and isinstance(fr[e.func.id], tuple) and fr[e.func.id][0] == 'def':
+                        _, fdef, cenv = fr[e.func.id]
+                        loc = dict(zip(_params(fdef), args))
+                        try:
+                            self.run(fdef.body, [loc] + cenv)
+                        except _GenReturn as r_:
+                            return r_.v
+                        return None
+        raise AnalysisError(f"symbol generator: expression outside the folding domain: {norm(e)[:70]}")
+
+    def bind(self, t, v, env):
+        if isinstance(t, ast.Name):
+            for fr in env[:1]:
+                fr[t.id] = v
+        elif isinstance(t, (ast.Tuple, ast.List)):
+            v = list(v)
+            if len(v) != len(t.elts):
+                raise ValueError("unpack")
+            for a, b in zip(t.elts, v):
+                self.bind(a, b, env)
+        else:
+            raise AnalysisError("symbol generator: assignment target")
+
+    def run(self, stmts, env):
+        for st in stmts:
+            self.tick()
+            if isinstance(st, ast.Assign):
+                v = self.ev(st.value, env)
+                for t in st.targets:
+                    self.bind(t, v, env)
+            elif isinstance(st, ast.AugAssign) and isinstance(st.target, ast.Name):
+                cur = self.ev(ast.Name(id=st.target.id, ctx=ast.Load()), env)
+                v = self.ev(ast.BinOp(left=ast.Constant(cur), op=st.op, right=ast.Constant(self.ev(st.value, env))), env)
+                self.bind(st.target, v, env)
             elif isinstance(st, ast.While):
-                while ev(st.test):
-                    run(st.body)
+                while self.ev(st.test, env):
+                    self.run(st.body, env)
+            elif isinstance(st, ast.If):
+                self.run(st.body if self.ev(st.test, env) else st.orelse, env)
+            elif isinstance(st, ast.For):
+                for v in self.ev(st.iter, env):
+                    self.bind(st.target, v, env)
+                    self.run(st.body, env)
             elif isinstance(st, ast.Expr) and isinstance(st.value, ast.Yield):
-                out.append(ev(st.value.value))
-                if len(out) >= LIMIT:
-                    raise Stop()
-            elif isinstance(st, ast.Expr) and isinstance(st.value, ast.Constant):
+                raise _GenYield(self.ev(st.value.value, env))
+            elif isinstance(st, ast.Return):
+                raise _GenReturn(None if st.value is None else self.ev(st.value, env))
+            elif isinstance(st, ast.FunctionDef):
+                env[0][st.name] = ('def', st, env)
+            elif isinstance(st, ast.Pass) or (isinstance(st, ast.Expr) and isinstance(st.value, ast.Constant)):
                 pass
             else:
                 raise AnalysisError(f"symbol generator: statement outside the folding domain: {norm(st)[:60]}")
+
+
+def rule_symbols(repo):
+    """Distinct nets must get distinct VCD identifier codes made of printable non-blank characters.  The symbol generator is a
+    closed (input-free) generator `<setup>; n = 0; while True: <code for n>; yield code; n += 1`: its per-n body is interpreted
+    for a sparse but deep set of n (all small n, the digit-count boundaries of the alphabet size and their neighbours, pairs
+    k / k + M**2 / k + M**3, 10**5, 10**6) and must be injective and legal on that set."""
+    r = RuleResult('R-C16-symbols', "the VCD identifier generator never hands the same code to two nets and only uses printable "
+                                    "non-blank characters (per-n body interpreted on a sparse deep set of n)")
+    m = repo.mod(VCD)
+    gens = [n for n in ast.walk(m.tree) if isinstance(n, ast.FunctionDef) and any(isinstance(x, (ast.Yield, ast.YieldFrom)) for x in walk_no_nested(n))]
+    if len(gens) != 1:
+        raise AnalysisError("anchor vanished: VCD symbol generator (expected exactly one generator function in VcdGenerationPass.py)")
+    g = gens[0]
+    if g.args.args or g.args.kwonlyargs or g.args.vararg or g.args.kwarg:
+        raise AnalysisError("symbol generator takes parameters: not a closed generator")
+    loops = [s_ for s_ in g.body if isinstance(s_, ast.While) and isinstance(s_.test, ast.Constant) and s_.test.value in (True, 1)]
+    if len(loops) != 1 or g.body[-1] is not loops[0]:
+        raise AnalysisError("symbol generator: expected `<setup>; while True: ...` as the last statement")
+    loop = loops[0]
+    setup = g.body[:g.body.index(loop)]
+    # the counter: initialised to 0 in the setup, stepped by exactly one, unconditionally, after the yield
+    steps = [s_ for s_ in loop.body if isinstance(s_, ast.AugAssign) and isinstance(s_.target, ast.Name)]
+    ypos = [k for k, s_ in enumerate(loop.body) if isinstance(s_, ast.Expr) and isinstance(s_.value, ast.Yield)]
+    cnt = None
+    for s_ in steps:
+        init = [x for x in setup if isinstance(x, ast.Assign) and any(isinstance(t, ast.Name) and t.id == s_.target.id for t in x.targets)]
+        if init and isinstance(init[-1].value, ast.Constant) and init[-1].value.value == 0 and isinstance(s_.op, ast.Add) and \
+                isinstance(s_.value, ast.Constant) and s_.value.value == 1 and len(ypos) == 1 and loop.body.index(s_) > ypos[0]:
+            cnt = s_.target.id
+    nested_y = [x for s_ in loop.body for x in ast.walk(s_) if isinstance(x, ast.Yield)]
+    if cnt is None or len(nested_y) != 1:
+        r.bad(m, g.name, "counter: n = 0 ... yield ... n += 1", "the generator does not yield exactly one code per value of a counter that "
+              "starts at 0 and is stepped by one after the yield: codes are skipped or repeated", g.lineno)
+        r.require_floor(0)
+        return r
+    f = _Fold()
+    genv = [{}]
     try:
-        run(g.body)
-    except Stop:
-        pass
-    r.evaluations = len(out)
-    cons = f"{g.name}: first {len(out)} identifier codes"
-    if len(out) < LIMIT:
-        r.bad(m, g.name, cons, f"the generator stops after {len(out)} codes: larger designs cannot be dumped", g.lineno)
+        f.run([s_ for s_ in setup], genv)
+    except (_GenYield, _GenReturn):
+        raise AnalysisError("symbol generator: yield/return in the setup part")
+    M = {94} | {len(v_) for v_ in genv[0].values() if isinstance(v_, str) and len(v_) > 1} | \
+        {v_ for v_ in genv[0].values() if isinstance(v_, int) and not isinstance(v_, bool) and 2 <= v_ <= 1000}
+    points = set(range(0, 201)) | {93, 94, 95, 94 ** 2 - 1, 94 ** 2, 94 ** 2 + 1, 94 ** 3 - 1, 94 ** 3, 10 ** 5, 10 ** 6}
+    for b in M:
+        points |= {b - 1, b, b + 1, b * b - 1, b * b, b * b + 1, b ** 3 - 1, b ** 3, b ** 3 + 1}
+        points |= {k + b * b for k in range(0, 201)} | {k + b ** 3 for k in range(0, 201)} | {k * b for k in range(0, 201)}
+    body = [s_ for s_ in loop.body]
+    codes = {}
+    finding = None
+    for n_ in sorted(points):
+        f.budget = 20000
+        env = [dict(genv[0])]
+        env[0][cnt] = n_
+        try:
+            f.run(body, env)
+            finding = f"for n = {n_} the loop body finishes without yielding a code"
+        except _GenYield as y:
+            c = y.v
+            r.evaluations += 1
+            if not isinstance(c, str) or not c:
+                finding = f"net #{n_} gets the identifier {c!r}, which is not a non-empty string"
+            elif any(ch.isspace() or not (33 <= ord(ch) <= 126) for ch in c):
+                finding = f"net #{n_} gets the identifier {c!r}, which contains a character outside the printable non-blank VCD alphabet (33..126)"
+            elif c in codes:
+                finding = (f"nets #{codes[c]} and #{n_} both get the identifier code {c!r}: in designs with more than {n_} nets unrelated "
+                           f"signals (possibly the clock) alias each other in the VCD file")
+            else:
+                codes[c] = n_
+        except _FoldBudget:
+            finding = (f"for net #{n_} the generator does not produce a code within 20000 interpretation steps (a code has at most a "
+                       f"handful of digits): the digit loop does not terminate, building the dump hangs")
+        except AnalysisError:
+            raise
+        except _GenReturn:
+            finding = f"the generator returns at n = {n_}: larger designs cannot be dumped"
+        except Exception as ex:
+            finding = f"the generator raises {type(ex).__name__} ({ex}) for net #{n_}: designs with more nets cannot be dumped"
+        if finding:
+            break
+    cons = f"{g.name}: identifier codes of {len(points)} net numbers up to {max(points)}"
+    if finding:
+        r.bad(m, g.name, cons, finding, g.lineno)
     else:
-        seen = {}
-        dup = None
-        for i, c in enumerate(out):
-            if c in seen and dup is None:
-                dup = (seen[c], i, c)
-            seen.setdefault(c, i)
-        badc = [c for c in out if not isinstance(c, str) or not c or any(ch.isspace() or not (33 <= ord(ch) <= 126) for ch in c)]
-        if dup:
-            r.bad(m, g.name, cons, f"nets #{dup[0]} and #{dup[1]} both get the identifier code {dup[2]!r}: in designs with more than "
-                  f"{dup[1]} nets unrelated signals (including the clock) alias each other in the VCD file", g.lineno)
-        elif badc:
-            r.bad(m, g.name, cons, f"identifier code {badc[0]!r} contains characters outside the printable non-blank VCD alphabet", g.lineno)
-        else:
-            r.ok(m, g.name, cons + " are pairwise distinct and printable")
-    r.require_floor(1)
+        r.ok(m, g.name, cons + " are pairwise distinct and printable")
+    r.require_floor(1 if not r.findings else 0)
     return r
 
 
@@ -2856,6 +2987,13 @@ MUTANTS = [
         (VCD, "    net_details = [ ( trimmed_value_nets[i][0], net_symbol_mapping[i] )", "    net_details = [ ( i, trimmed_value_nets[i][0], net_symbol_mapping[i] )"),
         (VCD, "      for i, (signal, symbol) in enumerate( net_details ):", "      for i, (net_idx, signal, symbol) in enumerate( net_details ):"),
         (VCD, "        if last_values[i] != net_bits_bin_str:", "        if last_values[net_idx] != net_bits_bin_str:")),
+    _m('symbols-only-two-digits', VCD, "        while q > 0:\n          q, r = divmod(q, _mod)", "        if q > 0:\n          q, r = divmod(q, _mod)", 'R-C16-symbols'),
+    _m('symbols-quotient-remainder-swapped', VCD, "          q, r = divmod(q, _mod)\n", "          r, q = divmod(q, _mod)\n", 'R-C16-symbols'),
+    _m('symbols-floordiv-for-mod', VCD, "        q, r = divmod(n, _mod)\n", "        q, r = n // _mod, n // _mod\n", 'R-C16-symbols'),
+    _m('symbols-base-wider-than-alphabet', VCD, "      _mod       = len(_codechars)\n", "      _mod       = len(_codechars) + 1\n", 'R-C16-symbols'),
+    _m('symbols-alphabet-with-blank', VCD, "for i in range(33, 127)])", "for i in range(32, 127)])", 'R-C16-symbols'),
+    _m('symbols-counter-not-stepped', VCD, "        yield code\n        n += 1\n", "        yield code\n", 'R-C16-symbols'),
+    _m('symbols-digits-dropped-not-prepended', VCD, "          code = _codechars[r] + code\n", "          code = _codechars[r]\n", 'R-C16-symbols'),
     _m('var-name-keeps-dot', VCD, "repr(signal)[ len(m_name)+1: ]", "repr(signal)[ len(m_name): ]", 'R-C16-header'),
     _m('no-upscope', VCD, '      print( f"{spaces}$upscope $end", file=vcd_file )\n', "", 'R-C16-header'),
     _m('clock-index-off-by-one', VCD, "vcd_clock_net_idx = len(trimmed_value_nets)\n\n      if new_net:",
@@ -2985,6 +3123,11 @@ EQUIV = [
     _m('scope-name-top-by-identity', VCD, "      my_name = m.get_field_name()\n      if my_name == \"s\":\n        my_name = \"top\"\n",
        "      if m is top:\n        my_name = \"top\"\n      else:\n        my_name = m.get_field_name()\n"),
     _m('textwave-record-by-dict-call', TW, "    text_sigs = {}\n", "    text_sigs = dict()\n"),
+    _m('symbols-by-floordiv-and-mod', VCD, "        q, r = divmod(n, _mod)\n", "        q, r = n // _mod, n % _mod\n"),
+    _m('symbols-recursive', VCD,
+       "        q, r = divmod(n, _mod)\n        code = _codechars[r]\n        while q > 0:\n          q, r = divmod(q, _mod)\n          code = _codechars[r] + code\n        yield code\n",
+       "        def encode( k ):\n          hi, lo = divmod( k, _mod )\n          return ( encode( hi ) if hi > 0 else '' ) + _codechars[ lo ]\n        yield encode( n )\n"),
+    _m('symbols-alphabet-one-shorter', VCD, "for i in range(33, 127)])", "for i in range(33, 126)])"),
     _m('dump-guard-flipped', PREP, "    if top.has_metadata( VcdGenerationPass.vcd_func ):\n      ret.append( top.get_metadata( VcdGenerationPass.vcd_func ) )\n",
        "    if not top.has_metadata( VcdGenerationPass.vcd_func ):\n      pass\n    else:\n      ret.append( top.get_metadata( VcdGenerationPass.vcd_func ) )\n"),
     _m('vcd-str-conditional-expression', BITS,
